@@ -427,6 +427,9 @@ impl Property for C15Prop {
                                 }
                             }
                         }
+                        if e.etype != "external" {
+                            vio.push(viol("C15", "C15.payload", format!("send {} put an event of type {} on an external queue", n, e.etype), "etype".into()));
+                        }
                         if e.origintype.as_deref() != Some(SCXML_TYPE) {
                             vio.push(viol("C15", "C15.reply", format!("send {}: origintype {:?}", n, e.origintype), "origintype".into()));
                         }
